@@ -494,10 +494,14 @@ class Evaluator:
         b = self.expr(node.args[2], src)
         s = self.expr(node.args[3], src)
         z = self._div(self._add(l, r, -1), s)
-        if abs(z.v) > 600:
-            raise Undefined("sigmoid overflow")
         one = Val(ONE, ZERO, True, ZERO if self.want_d else None, ZERO if self.want_d else None)
-        H = self._div(one, self._add(one, self.f_exp(z), 1))
+        if abs(z.v) > 600:
+            # saturated: 1/(1 + exp(z)) is 0 or 1 to within exp(-600); float64 evaluates it so as well (1/(1 + inf) = 0)
+            if z.e > 1:
+                raise Undecidable("saturated sigmoid with an uncertain argument")
+            H = Val(ZERO if z.v > 0 else ONE, mpf("1e-250"), False, ZERO if self.want_d else None, ZERO if self.want_d else None)
+        else:
+            H = self._div(one, self._add(one, self.f_exp(z), 1))
         omH = self._add(one, H, -1)
         if rel.func.id in ("Gt", "Ge"):
             return self._add(self._mul(a, omH), self._mul(b, H), 1)
